@@ -178,6 +178,7 @@ fn main() {
     if prop == "C17" {
         eprintln!("ops: {:?}", tstats.ops);
         eprintln!("observations: {:?}", tstats.obs);
+        eprintln!("entry points: {:?}", tstats.ep);
     } else {
         eprintln!("{}", rstats.summary());
     }
